@@ -62,7 +62,7 @@ type aggCase struct {
 	raw     string
 	Snap    []int       `json:"snap"`
 	Lvl     string      `json:"lvl"`
-	Rev     bool        `json:"rev"`
+	Rev     string      `json:"rev"`
 	Buckets []absBucket `json:"buckets"`
 }
 
@@ -443,10 +443,22 @@ func projAgg(a *stack.Aggregated) []aggOut {
 func checkAggCase(res *Result, ac *aggCase, U []absSig, idx int, repeats int) {
 	n := len(ac.Snap)
 	idOf := func(p int) int {
-		if ac.Rev {
+		switch ac.Rev {
+		case "desc":
 			return n + 1 - p
+		case "zig":
+			if p == 1 {
+				return 1
+			}
+			return n + 2 - p
 		}
 		return p
+	}
+	multiCreator := false
+	for _, x := range ac.Snap {
+		if len(U[x-1].Created) > 1 {
+			multiCreator = true // a creation STACK (race report): cannot be printed as a goroutine dump
+		}
 	}
 	lvl := levelOf(ac.Lvl)
 	want := []aggOut{}
@@ -478,6 +490,9 @@ func checkAggCase(res *Result, ac *aggCase, U []absSig, idx int, repeats int) {
 		return s
 	}
 	for _, route := range []string{"direct", "parsed"} {
+		if route == "parsed" && multiCreator {
+			continue
+		}
 		snap := build(route)
 		if snap == nil || len(snap.Goroutines) != n {
 			res.violation(mk("C01", "parse", route+": the printed snapshot did not parse back to "+fmt.Sprint(n)+" goroutines", n, nil))
